@@ -27,6 +27,11 @@ type StageSc struct {
 	Wrap    bool   `json:"wrap,omitempty"`    // hands a wrapped context on (marker value)
 	Ret     string `json:"ret,omitempty"`     // "" last result | first | fab (fabricated result) | err ((nil, err))
 	Yield   bool   `json:"yield,omitempty"`
+	// CtxDone: the stage hands an already cancelled context on (the remainder of the chain still runs: only the
+	// client transport at the very end looks at the context). Detach: it hands on a context that can no longer be
+	// cancelled (context.WithoutCancel)
+	CtxDone bool `json:"ctx_done,omitempty"`
+	Detach  bool `json:"detach,omitempty"`
 	// Parallel: the stage issues its continuation calls concurrently (hedging / fan-out) and waits for all of them
 	Parallel bool `json:"parallel,omitempty"`
 	// Stock: the stage is one of the library's own middlewares (transparent for the model):
@@ -50,6 +55,8 @@ func genStage(g *simrt.Tape) StageSc {
 	st := StageSc{Calls: []int{1, 1, 1, 0, 2, 2, 3}[g.Draw(7)], Replace: g.Draw(3) == 0, Wrap: g.Draw(3) == 0, Yield: g.Draw(3) == 0}
 	st.Ret = []string{"", "", "", "first", "fab", "err"}[g.Draw(6)]
 	st.Parallel = st.Calls >= 2 && g.Draw(3) == 0
+	st.CtxDone = g.Draw(8) == 0
+	st.Detach = g.Draw(8) == 0
 	return st
 }
 
@@ -70,6 +77,7 @@ func genC19(g *simrt.Tape, tier string) any {
 			sc.Stages = append(sc.Stages[:pos], append([]StageSc{st}, sc.Stages[pos:]...)...)
 		}
 	}
+	guardClientChain(sc)
 	if len(sc.Stages) > 0 && g.Draw(3) == 0 {
 		sc.Cut = 1 + g.Draw(len(sc.Stages))
 	}
@@ -77,6 +85,21 @@ func genC19(g *simrt.Tape, tier string) any {
 		sc.Sibling = 1 + g.Draw(2)
 	}
 	return sc
+}
+
+// guardClientChain: what the client transport does with a cancelled context is not the chain's business (C10/C11
+// look at that). A client chain in which some stage hands a cancelled context on therefore ends with a stage that
+// detaches it again, so that the transport always sees a live context and the model needs no opinion.
+func guardClientChain(sc *C19Sc) {
+	if sc.Driver != "client" {
+		return
+	}
+	for _, st := range sc.Stages {
+		if st.CtxDone {
+			sc.Stages = append(sc.Stages, StageSc{Calls: 1, Detach: true})
+			return
+		}
+	}
 }
 
 // programStages returns the generated (non-stock) stages; their position in this list is their label.
@@ -98,7 +121,7 @@ func decodeC19(raw json.RawMessage) (any, error) {
 // the 9-behaviour alphabet of the floor
 var c19Alphabet = []StageSc{
 	{Calls: 1}, {Calls: 0, Ret: "fab"}, {Calls: 0, Ret: "err"}, {Calls: 2}, {Calls: 3, Ret: "first"}, {Calls: 2, Parallel: true},
-	{Calls: 1, Replace: true}, {Calls: 1, Wrap: true}, {Calls: 2, Replace: true, Wrap: true}, {Calls: 1, Ret: "err"},
+	{Calls: 1, Replace: true}, {Calls: 1, Wrap: true}, {Calls: 2, Replace: true, Wrap: true}, {Calls: 1, Ret: "err"}, {Calls: 1, CtxDone: true}, {Calls: 1, Detach: true},
 }
 
 func c19Floor(tier string) []*C19Sc {
@@ -110,7 +133,9 @@ func c19Floor(tier string) []*C19Sc {
 	for _, d := range []string{"client", "server-msg", "server-item"} {
 		var rec func(prefix []StageSc, l int)
 		rec = func(prefix []StageSc, l int) {
-			out = append(out, &C19Sc{Driver: d, Stages: append([]StageSc{}, prefix...), Requests: 1})
+			fsc := &C19Sc{Driver: d, Stages: append([]StageSc{}, prefix...), Requests: 1}
+			guardClientChain(fsc)
+			out = append(out, fsc)
 			if l == maxLen {
 				return
 			}
@@ -142,6 +167,23 @@ type chainModel struct {
 	trace  []string
 }
 
+// markDone tells whether a context with this marker is cancelled: "!" marks a cancellation, "+" a detachment.
+func markDone(mark string) bool { return strings.LastIndexByte(mark, '!') > strings.LastIndexByte(mark, '+') }
+
+// handDown computes the marker of the context a stage hands on.
+func handDown(st StageSc, mark string, i, k int) string {
+	if st.Wrap {
+		mark = fmt.Sprintf("%s/s%dc%d", mark, i, k)
+	}
+	if st.CtxDone {
+		mark += "!"
+	}
+	if st.Detach {
+		mark += "+"
+	}
+	return mark
+}
+
 // run returns the identity of the result and whether it is an error.
 func (m *chainModel) run(i int, ctxMark, msgMark string) (string, bool) {
 	if i == len(m.stages) {
@@ -153,10 +195,7 @@ func (m *chainModel) run(i int, ctxMark, msgMark string) (string, bool) {
 	var results []string
 	var errs []bool
 	for k := 0; k < st.Calls; k++ {
-		c, mm := ctxMark, msgMark
-		if st.Wrap {
-			c = fmt.Sprintf("%s/s%dc%d", ctxMark, i, k)
-		}
+		c, mm := handDown(st, ctxMark, i, k), msgMark
 		if st.Replace {
 			mm = fmt.Sprintf("%s~s%dc%d", msgMark, i, k)
 		}
@@ -184,6 +223,24 @@ type chainRun struct {
 	s      *simrt.Sim
 	sc     *C19Sc
 	traces map[string][]string // per request
+}
+
+// realHandDown builds the context a stage hands on (the counterpart of handDown).
+func realHandDown(ctx context.Context, st StageSc, cm string, i, k int) context.Context {
+	mark := handDown(st, cm, i, k)
+	if mark == cm {
+		return ctx
+	}
+	c := context.WithValue(ctx, ctxMarkKey{}, mark)
+	if st.CtxDone {
+		cc, cancel := context.WithCancel(c)
+		cancel()
+		c = cc
+	}
+	if st.Detach {
+		c = context.WithoutCancel(c)
+	}
+	return c
 }
 
 func (cr *chainRun) rec(req, ev string) { cr.traces[req] = append(cr.traces[req], ev) }
@@ -289,9 +346,7 @@ func (cr *chainRun) msgStage(i int) func(next func(context.Context, *kmip.Reques
 				cr.s.YieldNow("stage-dally")
 			}
 			c, m := ctx, msg
-			if st.Wrap {
-				c = context.WithValue(ctx, ctxMarkKey{}, fmt.Sprintf("%s/s%dc%d", cm, i, k))
-			}
+			c = realHandDown(ctx, st, cm, i, k)
 			if st.Replace {
 				m = cloneReqWithMark(msg, fmt.Sprintf("~s%dc%d", i, k))
 			}
@@ -379,9 +434,7 @@ func (cr *chainRun) itemStage(i int) kmipserver.BatchItemMiddleware {
 				cr.s.YieldNow("stage-dally")
 			}
 			c, b := ctx, bi
-			if st.Wrap {
-				c = context.WithValue(ctx, ctxMarkKey{}, fmt.Sprintf("%s/s%dc%d", cm, i, k))
-			}
+			c = realHandDown(ctx, st, cm, i, k)
 			if st.Replace {
 				cp := *bi
 				cp.RequestPayload = &payloads.ActivateRequestPayload{UniqueIdentifier: withMsgMark(tok, fmt.Sprintf("~s%dc%d", i, k))}
@@ -703,6 +756,12 @@ func stagesDesc(st []StageSc) string {
 		}
 		if s.Wrap {
 			p += "W"
+		}
+		if s.CtxDone {
+			p += "!"
+		}
+		if s.Detach {
+			p += "+"
 		}
 		if s.Ret != "" {
 			p += ":" + s.Ret
